@@ -250,6 +250,16 @@ def params(prog, run):
             continue
         x = astq.expand(est, fsv)
         ok = isinstance(x, ast.BinOp) and isinstance(x.op, ast.Div) and isinstance(x.left, ast.Constant) and x.left.value == 1 and isinstance(x.right, ast.Name) and x.right.id == "dt"
+        if not ok:
+            eparams = set(astq.params_of(est.node)[0] + astq.params_of(est.node)[1])
+            if isinstance(x, ast.Name) and x.id == "fs" and "fs" in eparams:
+                ok = True           # the estimator is handed the sampling frequency itself (or derives it from dt at its entry)
+            elif isinstance(x, ast.Name) and x.id == "dt":
+                ok = False          # the sampling interval where the frequency belongs
+            elif isinstance(x, ast.BinOp) and isinstance(x.op, ast.Div) and isinstance(x.left, ast.Constant) and x.left.value == 1 and isinstance(x.right, ast.Name) and x.right.id == "fs":
+                ok = False
+            else:
+                ok = None
         run.ob("R-param", est.qual, "dt->fs", ok, f"fs = `{astq.src(x)}`", witness=astq.src(x, 40), file=fe, node=c)
     # the *_MS.run methods
     for cq in ("algorithms.fdd.FDD_MS", "algorithms.fdd.EFDD_MS", "algorithms.plscf.pLSCF_MS"):
